@@ -38,6 +38,9 @@ CHECKS = {
  "C11": dict(cat="model_checking", design="DESIGN.md section 5 C11",
    technique="TLA+ spec Pipeline.tla (OutIsFunctionOfInput model-checked over all hand-over orders and step interleavings); the same definition sets compiled by the real compiler under permutation, repetition, threads, concurrency and history; the recorded results validated by TLC with a stateful trace specification (Trace_C11.tla)",
    text="Design level: TLC checks on the bounded pipeline model that the output is a function of the input for every order of sources and every interleaving of generation steps. Code level: Notation module sets and real-world modules are each compiled many times -- repeated, sources/modules/assignments permuted (all permutations for <=4 units), on another thread, after another compilation, 2..8 times concurrently -- and TLC validates that all compilations of one definition set return the same status, byte-identical bindings and the same multiset of warnings."),
+ "C09": dict(cat="model_checking", design="DESIGN.md section 5 C09",
+   technique="TLA+ spec Linker.tla: the linker's single pass over a name-sorted stack modelled action by action and compared by TLC with the declarative meaning Expand for every COMPONENTS OF topology and EVERY order of the definition names; parameter product MC_C09.tla for the other notations; every case compiled as written and hand-expanded by the real compiler; traces validated by TLC (deviations = the model's predicted wrong answer on the model's deviation classes)",
+   text="For COMPONENTS OF, TLC explores all topologies of 3 (thorough 4) SEQUENCE definitions under all name orders, proves that the (repaired) algorithm is name-independent and differs from Expand exactly on the position class, refutes the pre-repair algorithm, and every case is replayed: the compiler must produce Expand's component list, or exactly the model's prediction on a deviation class, with bindings equal to the hand-expanded module's. Parameterized types (1..3 type/value parameters, 1..3 instantiations), selection types, class field types, value references and named numbers in constraints are enumerated as a parameter product, each with the referenced name sorting before and after its user, and compared with their hand-expanded twin."),
 }
 
 NOT_BUILT = "check not built yet (DESIGN.md section 13 build order)"
